@@ -447,6 +447,46 @@ fam!(BTreeMap<KeyId, Vec<u8>>, "BTreeMap<KeyId(u64),Vec<u8>>", vec![bm(vec![]), 
 fam!(BTreeMap<KeyFlag, u8>, "BTreeMap<KeyFlag(bool),u8>", vec![bm(vec![(KeyFlag(true), 3)]), bm(vec![(KeyFlag(false), 0), (KeyFlag(true), 1)])]);
 fam!(BTreeMap<KeyName, i8>, "BTreeMap<KeyName(String),i8>", vec![bm(vec![(KeyName("a\"b".into()), -1)]), bm(vec![(KeyName("".into()), 0), (KeyName("k".into()), 1)])]);
 
+/// map keys that are floats (ordered by their bits)
+#[derive(Serialize, Deserialize, Debug, Clone, Copy)]
+pub struct KeyF32(pub f32);
+impl PartialEq for KeyF32 {
+    fn eq(&self, o: &Self) -> bool {
+        self.0.to_bits() == o.0.to_bits()
+    }
+}
+impl Eq for KeyF32 {}
+impl PartialOrd for KeyF32 {
+    fn partial_cmp(&self, o: &Self) -> Option<std::cmp::Ordering> {
+        Some(self.cmp(o))
+    }
+}
+impl Ord for KeyF32 {
+    fn cmp(&self, o: &Self) -> std::cmp::Ordering {
+        self.0.total_cmp(&o.0)
+    }
+}
+#[derive(Serialize, Deserialize, Debug, Clone, Copy)]
+pub struct KeyF64(pub f64);
+impl PartialEq for KeyF64 {
+    fn eq(&self, o: &Self) -> bool {
+        self.0.to_bits() == o.0.to_bits()
+    }
+}
+impl Eq for KeyF64 {}
+impl PartialOrd for KeyF64 {
+    fn partial_cmp(&self, o: &Self) -> Option<std::cmp::Ordering> {
+        Some(self.cmp(o))
+    }
+}
+impl Ord for KeyF64 {
+    fn cmp(&self, o: &Self) -> std::cmp::Ordering {
+        self.0.total_cmp(&o.0)
+    }
+}
+fam!(BTreeMap<KeyF32, u8>, "BTreeMap<KeyFloat32,u8>", vec![bm(vec![(KeyF32(0.5), 1)]), bm(vec![(KeyF32(0.1), 1), (KeyF32(-3.3), 2), (KeyF32(1e-7), 3), (KeyF32(16777216.0), 4)])]);
+fam!(BTreeMap<KeyF64, u8>, "BTreeMap<KeyF64(f64),u8>", vec![bm(vec![(KeyF64(0.5), 1)]), bm(vec![(KeyF64(0.1), 1), (KeyF64(-3.3), 2), (KeyF64(1e-7), 3), (KeyF64(5e-324), 4), (KeyF64(123456.75), 5)])]);
+
 fam!(Box<[u8]>, "Box<[u8]>", vec![vec![].into_boxed_slice(), vec![0u8, 255].into_boxed_slice()], deep seqs(&[0u8, 34, 92, 255], 4).into_iter().map(|b| b.into_boxed_slice()).collect::<Vec<_>>());
 
 fam!(serde_json::Value, "serde_json::Value", vec![
@@ -515,6 +555,8 @@ macro_rules! for_each_fam {
         $m!(std::collections::BTreeMap<$crate::types::KeyId, Vec<u8>>);
         $m!(std::collections::BTreeMap<$crate::types::KeyFlag, u8>);
         $m!(std::collections::BTreeMap<$crate::types::KeyName, i8>);
+        $m!(std::collections::BTreeMap<$crate::types::KeyF32, u8>);
+        $m!(std::collections::BTreeMap<$crate::types::KeyF64, u8>);
         $m!($crate::types::EdgeVariants);
         $m!($crate::types::Renamed);
         $m!($crate::types::RenamedEnum);
